@@ -9,6 +9,16 @@
   R4  a repeated commit does nothing: the already-committed branch of commit_batch_update contains no write
   R5  job-group bunches are accepted only in order (next id == last inserted id + 1), so a replayed bunch cannot insert twice
   R6  id arithmetic: client and server compute absolute = start + relative - 1 at all seven sites (linear normal form)
+  R7  client tokens name ONE logical request: the update token sent with updates/create and update-fast is drawn fresh (secrets / uuid) for
+      every update, or - when it is kept on the Batch object - is never sent again after the update it named has completed (typestate
+      cleared / fresh / sent-open / sent-completed over submit() with its helpers, fast and bunched paths; submit() re-entered on the same
+      object); a fresh-token method is not handed to a retry helper (every retry would open another update); the batch token is
+      self.token and the two batch-creating requests are sent at most once per object (dominated by _raise_if_created, followed by
+      self._id = ...)
+  R8  token wiring on the server: each of the four create / update handlers passes the token of the spec it validated to
+      _create_batch_update; the look-ups bind (token, user) / (batch_id, update_token) unchanged; the replayed answer of
+      _create_batch_update returns the stored columns in the positions of the first answer; the handlers unpack and publish them under
+      the names the client reads; batch_updates is written by a plain INSERT
 Not decided: interleaving with a second client (InnoDB locking semantics).
 """
 from __future__ import annotations
@@ -16,19 +26,21 @@ from __future__ import annotations
 import ast
 from typing import Dict, List, Optional, Tuple
 
+from engines import c0910facts as cf
 from engines import linform as lf
 from engines import pyfacts as pf
 from engines import sqlfront as sf
 from engines import sqlrules as sr
-from engines.common import AnalysisError, Ctx
+from engines.common import AnalysisError, AnchorRemoved, Ctx
 from engines.sqlast import N, text
 
 META = dict(
     category='other',
     text='Ordering/dominance obligations that make each submission request idempotent (look-up before insert, first-write duplicate detection, no-op recommit, '
-         'in-order group bunches) and linear-normal-form agreement of the id arithmetic between client and server.',
+         'in-order group bunches), linear-normal-form agreement of the id arithmetic between client and server, typestate of the client-side tokens (a token names one '
+         'logical request) and def-use wiring of tokens and reserved ids between handlers, look-ups, stored rows and the client.',
     note='Trusted: SQL parser, Python CFG; MySQL unique keys on (batches.token,user), (batch_updates.batch_id,token), jobs primary key. Concurrent second client not decided.',
-    technique='static analysis: CFG dominance, statement ordering inside transaction functions, linear normal forms of id expressions',
+    technique='static analysis: CFG dominance, statement ordering inside transaction functions, linear normal forms of id expressions, interprocedural typestate over a finite token-state domain, def-use binding of SQL parameters',
     design_ref='DESIGN.md §3 C09',
 )
 
@@ -268,6 +280,307 @@ def r6(ctx: Ctx, m: pf.Module) -> None:
     ctx.check(lf.lin(comp[0].elt) == lf.Lin({'update_start_job_id': 1, tv: 1}, -1), 'R6', f'{FE}::_create_jobs::in-update parent id', f'`{pf.nsrc(comp[0].elt)}` is not start + relative - 1', m.path, comp[0].lineno)
 
 
+def _self_calls(fn: pf.FuncDef, names) -> List[ast.Call]:
+    return [c for c in ast.walk(fn) if isinstance(c, ast.Call) and isinstance(c.func, ast.Attribute) and isinstance(c.func.value, ast.Name)
+            and c.func.value.id == 'self' and c.func.attr in names]
+
+
+def r7(ctx: Ctx) -> None:
+    cm = pf.load(CL)
+    tf = cf.TokenFacts(cm, 'Batch')
+    kinds = {s.kind for s in tf.sites}
+    ctx.need({'create-fast', 'batch-create', 'update-fast', 'update-create', 'commit'} <= kinds, f'{CL}: request sites of Batch not all found (have {sorted(kinds)})')
+    prods = tf.producers()
+    upd = [p for p in prods if 'billing_project' not in p[2]]
+    bat = [p for p in prods if 'billing_project' in p[2]]
+    ctx.need(len(upd) == 1 and len(bat) == 1, f'{CL}: expected one update-spec and one batch-spec producer with a token key, found {[p[0] for p in prods]}')
+    declined: List[str] = []
+    par = cm.parents()
+
+    def in_loop(node: ast.AST, fn: pf.FuncDef) -> bool:
+        cur = par.get(node)
+        while cur is not None and cur is not fn:
+            if isinstance(cur, (ast.For, ast.AsyncFor, ast.While, ast.ListComp, ast.GeneratorExp, ast.SetComp, ast.DictComp)):
+                return True
+            cur = par.get(cur)
+        return False
+
+    # ---- the spec sent by each token-bearing request is produced by exactly one direct producer call in the requesting method --------------
+    for s_ in tf.sites:
+        if s_.kind == 'commit':
+            continue
+        pname = upd[0][0] if s_.kind.startswith('update') else bat[0][0]
+        fn = tf.methods[s_.method]
+        pcs = _self_calls(fn, {pname})
+        other = [p[0] for p in prods if p[0] != pname and _self_calls(fn, {p[0]})]
+        cons = f'{CL}::Batch.{s_.method}::{s_.kind} spec'
+        if len(pcs) != 1 or other or in_loop(pcs[0], fn) or in_loop(s_.call, fn):
+            declined.append(f'{cons}: the request does not take its spec from exactly one straight-line call of self.{pname}() (calls: {len(pcs)}, other producers: {other})')
+            continue
+        ctx.ok('R7', cons, f'self.{pname}() called once per request')
+
+    # ---- update token -----------------------------------------------------------------------------------------------------------------------
+    pname, tv, keys = upd[0]
+    pfn = tf.methods[pname]
+    kind, info = tf.classify(pfn, tv)
+    cons = f'{CL}::Batch.{pname}::update token'
+    cached = [pf.dotted(d) or pf.nsrc(d) for d in pfn.decorator_list if (pf.dotted(d.func if isinstance(d, ast.Call) else d) or '') in cf.CACHE_DECORATORS]
+    if cached:
+        ctx.bad('R7', cons + ' fresh per update', f'{pname} is memoised ({cached}): every update of this Batch object is sent with the token of the first one; the server answers the second '
+                'update with the first update\'s ids (look-up by (batch_id, token)) and the new jobs are never created', cm.path, pfn.lineno)
+    elif pfn.decorator_list:
+        declined.append(f'{cons}: decorated producer')
+    elif kind == 'fresh':
+        ctx.ok('R7', cons + ' fresh per update', f'`{pf.nsrc(tv)}` = {pf.nsrc(info)} evaluated on every call')
+    elif kind == 'deterministic':
+        ctx.bad('R7', cons + ' fresh per update', f'the update token is `{info}`: it contains no random draw, so two different updates with the same inputs (e.g. two updates with the same number of jobs) '
+                'carry the same token; the server then answers the second one with the first update\'s update_id / start ids and its jobs are never created', cm.path, tv.lineno)
+    elif kind == 'attr':
+        attr = info
+        viol, states, decl = tf.run_typestate(attr, 'submit', {'update-fast': 'D', 'update-create': 'O', 'commit': 'C'})
+        for v in viol:
+            ctx.bad('R7', f'{CL}::Batch.{v["method"]}::update token self.{attr} re-sent after completion',
+                    f'self.{attr} is still set when `{v["url"]}` is sent, although the update it named was already completed by {v["completed_at"]} and no statement on that path cleared or re-drew it. '
+                    f'History: submit() #1 ends in {v["completed_at"]}; submit() #2 on the same Batch object with NEW jobs sends the OLD token; the server finds the old update by (batch_id, token), returns its '
+                    'update_id / start_job_id and treats "already committed" as a finished retry: the client numbers its new jobs with the previous update\'s ids and they are never created', cm.path, v['line'],
+                    extra={'states_at_submit_entry': sorted(states)})
+        if not viol:
+            if decl:
+                declined += decl
+            else:
+                ctx.ok('R7', cons + ' fresh per update', f'self.{attr} is cleared or re-drawn on every path that completes an update; states at submit() entry: {sorted(states)}')
+    else:
+        declined.append(f'{cons}: {info}')
+
+    # ---- a method that draws a fresh token is not handed to a retry helper --------------------------------------------------------------------
+    drawing = {p[0] for p in prods if tf.classify(tf.methods[p[0]], p[1])[0] == 'fresh'}
+    changed = True
+    while changed:
+        changed = False
+        for name, fn in tf.methods.items():
+            if name not in drawing and _self_calls(fn, drawing):
+                drawing.add(name)
+                changed = True
+    n_retry = 0
+    for rel in [CL] + (['hail/python/hailtop/batch_client/client.py', 'hail/python/hailtop/batch/backend.py', 'hail/python/hailtop/batch/batch.py'] if ctx.tier == 'thorough' else []):
+        mod = pf.load(rel)
+        mpar = mod.parents()
+        for c in ast.walk(mod.tree):
+            if isinstance(c, ast.Call) and 'retry' in (pf.dotted(c.func) or '').lower():
+                n_retry += 1
+                for a in list(c.args) + [k.value for k in c.keywords]:
+                    for x in ast.walk(a):
+                        if isinstance(x, ast.Attribute) and x.attr in drawing and x.attr in tf.methods and not (isinstance(mpar.get(x), ast.Call) and mpar.get(x).func is x):
+                            ctx.bad('R7', f'{rel}::{pf.dotted(c.func)}({pf.nsrc(x)})', f'{pf.nsrc(x)} draws a fresh token on every invocation and is re-invoked by {pf.dotted(c.func)}: a retry after a lost response '
+                                    'opens a second update (second id range, jobs duplicated) instead of finding the first one by its token', mod.path, c.lineno)
+    ctx.ok('R7', f'{CL}::Batch::token-drawing methods not retried', {'drawing': sorted(drawing), 'retry_calls_scanned': n_retry})
+    if ctx.tier == 'thorough':
+        # nobody else builds update specs or talks to the update endpoints with a token of its own (sync wrapper, hailtop.batch backends)
+        for rel in pf.walk_py(['hail/python/hailtop/batch_client', 'hail/python/hailtop/batch']):
+            if rel == CL:
+                continue
+            mod = pf.load(rel)
+            if 'token' not in mod.src:
+                continue
+            for d in ast.walk(mod.tree):
+                if isinstance(d, ast.Dict):
+                    ks = {pf.const_str(k) for k in d.keys if k is not None}
+                    if 'token' in ks and ('n_jobs' in ks or 'n_job_groups' in ks):
+                        declined.append(f'{rel}:{d.lineno}: another module builds a batch / update spec with its own token; token freshness there is not analysed')
+                if isinstance(d, (ast.Constant, ast.JoinedStr)):
+                    t = pf.fstring_template(d, lambda x: '{}')
+                    if t and any(t.endswith(sfx) for sfx, k_ in cf.ENDPOINTS if k_ != 'commit'):
+                        declined.append(f'{rel}:{d.lineno}: another module addresses `{t}`; its token handling is not analysed')
+        ctx.ok('R7', 'hailtop.batch_client / hailtop.batch::no other token-bearing sender', None, nontrivial=False)
+
+    # ---- batch token: self.token, sent by requests that run at most once per object ---------------------------------------------------------------
+    bname, btv, _ = bat[0]
+    bkind, binfo = tf.classify(tf.methods[bname], btv)
+    cons = f'{CL}::Batch.{bname}::batch token'
+    if bkind != 'attr':
+        declined.append(f'{cons}: the batch token is not an attribute of the Batch object ({bkind}: {binfo if not isinstance(binfo, ast.AST) else pf.nsrc(binfo)})')
+    else:
+        asg = tf.attr_assignments(binfo)
+        ctx.check(bool(asg) and all(a[0] == '__init__' for a in asg), 'R7', cons + ' fixed at construction', f'self.{binfo} is re-assigned outside __init__ ({[a[0] for a in asg]}): a re-sent create request '
+                  'may carry a different token than the original and create a second batch', cm.path, tf.methods[bname].lineno)
+        guard = tf.methods.get('_raise_if_created')
+        isc = tf.methods.get('is_created')
+        ok_guard = guard is not None and isc is not None and any(isinstance(n, ast.If) and pf.nsrc(n.test) == 'self.is_created' and any(isinstance(x, ast.Raise) for x in n.body) for n in guard.body) \
+            and any(isinstance(n, ast.Return) and n.value is not None and pf.nsrc(n.value) in ('self._id is not None', 'self._id != None') for n in isc.body)
+        if not ok_guard:
+            declined.append(f'{CL}::Batch._raise_if_created / is_created: idiom not recognised')
+        else:
+            for s_ in tf.sites:
+                if s_.kind not in ('create-fast', 'batch-create'):
+                    continue
+                fn = tf.methods[s_.method]
+                g = pf.cfg(fn)
+                sn = g.node_of(s_.call)
+                ctx.need(len(sn) == 1, f'Batch.{s_.method}: request node not found')
+                dom = g.dominated_by(sn[0], lambda n: any(isinstance(c.func, ast.Attribute) and c.func.attr == '_raise_if_created' and pf.nsrc(c.func.value) == 'self' for c in pf.node_calls(n)))
+                sets_id = lambda n: isinstance(n.ast, ast.Assign) and any(pf.nsrc(t) == 'self._id' for t in n.ast.targets)  # noqa: E731
+                post = sets_id(sn[0]) or g.path_avoiding(sn[0], lambda n: n is g.exit, sets_id, edge_ok=lambda a, b, lab: lab != 'exc') is None
+                ctx.check(dom and post, 'R7', f'{CL}::Batch.{s_.method}::{s_.kind} at most once per object', f'`{s_.url}` is ' + ('not preceded by self._raise_if_created() on every path' if not dom else
+                          'not followed by `self._id = ...` on every normal path') + ': the same Batch object can send its batch token again for a different logical creation', cm.path, s_.call.lineno)
+    ctx.need(not declined, 'R7 client tokens: ' + ' | '.join(declined))
+
+
+ID_KEYS = ('update_id', 'start_job_group_id', 'start_job_id')
+ID_SOURCES = ('self._create_fast', 'self._update_fast', 'self._commit_update')
+
+
+def _binding(fn: pf.FuncDef, e: sf.Embedded, st: N) -> Dict[str, ast.expr]:
+    """column -> python expression for every `col = %s` conjunct of a statement's WHERE (positional parameters bound in order)."""
+    params = sr.params_in_order(st)
+    elts = sr.args_tuple(fn, e.call.args[1]) if len(e.call.args) > 1 else None
+    if elts is None or len(elts) != len(params):
+        raise AnalysisError(f'{e.qual}: cannot bind the parameters of `{text(st)[:60]}`')
+    by = {id(p_): x for p_, x in zip(params, elts)}
+    out = {}
+    for c in sf.conjuncts(st.where):
+        if c.kind == 'bin' and c.op == '=' and c.right.kind == 'param' and c.left.kind == 'col':
+            out[c.left.parts[-1].lower()] = by[id(c.right)]
+    return out
+
+
+def r8(ctx: Ctx, m: pf.Module) -> None:
+    # ---- (a) every handler hands the token of the spec it validated to the update look-up ----------------------------------------------
+    for h, validator, creates in (('create_batch_fast', 'validate_batch', True), ('create_batch', 'validate_batch', True),
+                                  ('update_batch_fast', 'validate_batch_update', False), ('create_update', 'validate_batch_update', False)):
+        fn = m.func(h)
+        cons = f'{FE}::{h}'
+        vcalls = [c for c in ast.walk(fn) if isinstance(c, ast.Call) and pf.dotted(c.func) == validator and len(c.args) == 1 and isinstance(c.args[0], ast.Name)]
+        ucalls = [c for c in ast.walk(fn) if isinstance(c, ast.Call) and pf.dotted(c.func) == '_create_batch_update']
+        ctx.need(len(vcalls) == 1 and len(ucalls) == 1 and len(ucalls[0].args) >= 2, f'{cons}: validator / _create_batch_update call not recognised')
+        spec = vcalls[0].args[0].id
+        tok = ucalls[0].args[1]
+        if isinstance(tok, ast.Name):
+            d_ = pf.single_def(fn, tok.id)
+            tok = d_ if isinstance(d_, ast.expr) else tok
+        ok = isinstance(tok, ast.Subscript) and pf.nsrc(tok.value) == spec and pf.const_str(tok.slice) == 'token'
+        ctx.check(ok, 'R8', cons + '::update token argument', f'{h} validates `{spec}` but looks the update up / creates it under the token `{pf.nsrc(tok)}`: a re-sent request is not recognised by the '
+                  'token the client sent (or two different requests share one)', m.path, ucalls[0].lineno)
+        if creates:
+            bcalls = [c for c in ast.walk(fn) if isinstance(c, ast.Call) and pf.dotted(c.func) == '_create_batch' and c.args]
+            ctx.need(len(bcalls) == 1, f'{cons}: _create_batch call not recognised')
+            ctx.check(pf.nsrc(bcalls[0].args[0]) == spec, 'R8', cons + '::batch spec argument', f'_create_batch receives `{pf.nsrc(bcalls[0].args[0])}`, not the validated `{spec}`', m.path, bcalls[0].lineno)
+        # the ids are unpacked and published under the names the client reads (by POSITION in the returned triple, not by local name)
+        tgs = [n.targets[0] for n in pf.walk_shallow(fn) if isinstance(n, ast.Assign) and any(x is ucalls[0] for x in ast.walk(n.value))]
+        ctx.need(len(tgs) == 1 and isinstance(tgs[0], ast.Tuple) and len(tgs[0].elts) == 3 and all(isinstance(x, ast.Name) for x in tgs[0].elts),
+                 f'{cons}: result of _create_batch_update is not unpacked into three names')
+        pos = dict(zip(ID_KEYS, [x.id for x in tgs[0].elts]))
+        bad = []
+        nd = 0
+        for d in ast.walk(fn):
+            if isinstance(d, ast.Dict):
+                ks = [pf.const_str(k) if k is not None else None for k in d.keys]
+                if any(k in ID_KEYS for k in ks):
+                    nd += 1
+                    bad += [f"'{k}': {pf.nsrc(v)}" for k, v in zip(ks, d.values) if k in ID_KEYS and not (isinstance(v, ast.Name) and v.id == pos[k])]
+        ctx.need(nd >= 1, f'{cons}: response dict not found')
+        ctx.check(not bad, 'R8', cons + '::response keys', f'_create_batch_update returns (update_id, start_job_group_id, start_job_id), unpacked here into {list(pos.values())}, but the response publishes {bad}: '
+                  'job ids and job-group ids (or the update id) change places in the answer and the client numbers its jobs from the wrong start', m.path, fn.lineno)
+
+    # ---- (b, c) the look-ups compare the stored key columns with the unmodified request token, and the insert stores the very same expressions ----
+    for qual, table, keycols in (('_create_batch.insert', 'batches', {'token', 'user'}), ('_create_batch_update.update', 'batch_updates', {'batch_id', 'token'})):
+        fn = m.func(qual)
+        outer = m.func(qual.split('.')[0])
+        oparams = {a_.arg for a_ in outer.args.args + outer.args.kwonlyargs}
+
+        def res(x: ast.AST) -> ast.AST:
+            return pf.expand_locals(outer, pf.expand_locals(fn, x))
+
+        look = None
+        stored = None
+        for e in _embs(m, fn):
+            for st in e.stmts():
+                if st.kind == 'select' and sf.table_names(st.frm) == [table] and st.lock == 'FOR UPDATE' and not st.order:
+                    b_ = _binding(fn, e, st)
+                    if set(b_) == keycols:
+                        look = (e, {k: res(v) for k, v in b_.items()})
+                if st.kind == 'insert' and st.table.lower() == table:
+                    elts = sr.args_tuple(fn, e.call.args[1])
+                    ctx.need(elts is not None and st.cols is not None and len(elts) == len(st.cols), f'{qual}: cannot bind INSERT INTO {table}')
+                    stored = (e, st, {c.lower(): res(x) for c, x in zip(st.cols, elts)})
+        ctx.need(look is not None and stored is not None, f'{qual}: token look-up / insert not found for binding check')
+        tok = look[1]['token']
+        plain = (isinstance(tok, ast.Name) and tok.id in oparams) or \
+            (isinstance(tok, ast.Subscript) and isinstance(tok.value, ast.Name) and tok.value.id in oparams and pf.const_str(tok.slice) == 'token')
+        got = {k: pf.nsrc(v) for k, v in look[1].items()}
+        ctx.check(plain, 'R8', f'{FE}::{qual}::look-up binding', f'the idempotency look-up compares {got}: the token column is not compared with the request token as received (a parameter, or <spec>[\'token\']) '
+                  'but with something transformed, truncated or generated, so a retry is not recognised or distinct requests collide', m.path, look[0].lineno)
+        sto = {k: pf.nsrc(stored[2][k]) if k in stored[2] else None for k in keycols}
+        ctx.check(sto == got and not stored[1].on_dup and not stored[1].ignore and not stored[1].replace, 'R8', f'{FE}::{qual}::stored key = looked-up key',
+                  f'the row is stored under {sto} (plain INSERT: {not (stored[1].on_dup or stored[1].ignore or stored[1].replace)}) but a retry looks it up by {got}: the retry does not find the row its first attempt wrote '
+                  '(second batch / update), or a colliding row is silently kept / overwritten', m.path, stored[0].lineno)
+
+    # ---- (d) the replayed answer has the stored columns in the positions of the first answer ---------------------------------------------------
+    fn = m.func('_create_batch_update.update')
+    rets = [n for n in pf.walk_shallow(fn) if isinstance(n, ast.Return) and isinstance(n.value, ast.Tuple)]
+    ctx.need(len(rets) == 2, f'_create_batch_update.update: expected two tuple returns (replay, first), found {len(rets)}')
+    replay = [r for r in rets if all(isinstance(x, ast.Subscript) for x in r.value.elts)]
+    first = [r for r in rets if all(isinstance(x, ast.Name) for x in r.value.elts)]
+    ctx.need(len(replay) == 1 and len(first) == 1 and len(replay[0].value.elts) == len(first[0].value.elts) == 3, '_create_batch_update.update: return shapes not recognised')
+    ins = None
+    for e in _embs(m, fn):
+        for st in e.stmts():
+            if st.kind == 'insert' and st.table.lower() == 'batch_updates':
+                ins = (e, st)
+    ctx.need(ins is not None, '_create_batch_update: INSERT INTO batch_updates not found')
+    elts = sr.args_tuple(fn, ins[0].call.args[1])
+    ctx.need(elts is not None and ins[1].cols is not None and len(elts) == len(ins[1].cols), '_create_batch_update: cannot bind INSERT INTO batch_updates')
+    stored = {c.lower(): pf.nsrc(x) for c, x in zip(ins[1].cols, elts)}
+    cols = [pf.const_str(x.slice) for x in replay[0].value.elts]
+    firsts = [x.id for x in first[0].value.elts]
+    ok = all(c is not None and stored.get(c) == v for c, v in zip(cols, firsts)) and cols == list(ID_KEYS)
+    ctx.check(ok, 'R8', f'{FE}::_create_batch_update.update::replayed answer', f'a re-sent request is answered with columns {cols}, the original request with {firsts} (stored as '
+              f'{ {c: stored.get(c) for c in ID_KEYS} }): the retry tells the client different ids than the first answer', m.path, replay[0].lineno)
+    ctx.check(not ins[1].on_dup and not ins[1].ignore and not ins[1].replace, 'R8', f'{FE}::_create_batch_update.update::plain insert', 'batch_updates is written with ON DUPLICATE KEY / IGNORE / REPLACE: '
+              'a colliding (batch_id, update_id) or (batch_id, token) silently keeps or overwrites another update\'s range instead of failing, and the ids returned are not the ids stored', m.path, ins[0].lineno)
+
+    # ---- (f) the client reads the ids under the same names and hands job ids to jobs, group ids to groups ----------------------------------------
+    cm = pf.load(CL)
+    for q in ('Batch._create_fast', 'Batch._update_fast', 'Batch._commit_update'):
+        fn = cm.func(q)
+        rets = [n for n in pf.walk_shallow(fn) if isinstance(n, ast.Return) and n.value is not None]
+        ctx.need(len(rets) == 1, f'{q}: expected one return')
+        v = pf.expand_locals(fn, rets[0].value)
+        keys = []
+        if isinstance(v, ast.Tuple):
+            for x in v.elts:
+                x = x.args[0] if isinstance(x, ast.Call) and pf.dotted(x.func) == 'int' and len(x.args) == 1 else x
+                keys.append(pf.const_str(x.slice) if isinstance(x, ast.Subscript) else None)
+        ctx.check(keys == ['start_job_group_id', 'start_job_id'], 'R8', f'{CL}::{q}::returned ids', f'{q} returns the response fields {keys}; submit() expects (start_job_group_id, start_job_id)', cm.path, rets[0].lineno)
+    fn = cm.func('Batch._submit')
+    pairs = []
+    for n in pf.walk_shallow(fn):
+        if isinstance(n, ast.Assign) and isinstance(n.targets[0], ast.Tuple) and isinstance(n.value, ast.Await) and isinstance(n.value.value, ast.Call):
+            c = n.value.value
+            src_ = pf.dotted(c.func) if pf.dotted(c.func) in ID_SOURCES else next((pf.dotted(a) for a in c.args[:1] if pf.dotted(a) in ID_SOURCES), None)
+            if src_ is None:
+                continue
+            pairs.append((src_, [pf.nsrc(x) for x in n.targets[0].elts], n.lineno))
+    ctx.need(len(pairs) == 4 and all(len(p_[1]) == 2 for p_ in pairs), f'Batch._submit: expected 4 two-name unpacking sites, found {len(pairs)}')
+    rets = [n.value for n in pf.walk_shallow(fn) if isinstance(n, ast.Return) and n.value is not None and pf.nsrc(n.value) != '(None, None)']
+    ctx.need(len(rets) == 1 and isinstance(rets[0], ast.Tuple) and len(rets[0].elts) == 2, 'Batch._submit: return shape not recognised')
+    rnames = [pf.nsrc(x) for x in rets[0].elts]
+    for src_, names, ln in pairs:
+        ctx.check(names == rnames, 'R8', f'{CL}::Batch._submit::unpack {src_}', f'{src_} returns (start_job_group_id, start_job_id); it is unpacked into {names} while _submit returns {rnames}: '
+                  'group start and job start change places on this path', cm.path, ln)
+    ctx.ok('R8', f'{CL}::Batch._submit::returned ids', rnames)
+    fn = cm.func('Batch.submit')
+    ups = [n.targets[0] for n in pf.walk_shallow(fn) if isinstance(n, ast.Assign) and isinstance(n.value, ast.Await) and isinstance(n.value.value, ast.Call) and pf.dotted(n.value.value.func) == 'self._submit']
+    ctx.need(bool(ups) and all(isinstance(u, ast.Tuple) and len(u.elts) == 2 for u in ups) and len({pf.nsrc(u) for u in ups}) == 1, 'Batch.submit: unpacking of _submit() not recognised')
+    ctx.ok('R8', f'{CL}::Batch.submit::unpack', pf.nsrc(ups[0]))
+    snames = [pf.nsrc(x) for x in ups[0].elts]
+    for coll, want, what in (('self._job_groups', snames[0], 'start_job_group_id'), ('self._jobs', snames[1], 'start_job_id')):
+        loops = [n for n in pf.walk_shallow(fn) if isinstance(n, ast.For) and pf.nsrc(n.iter) == coll]
+        ctx.need(len(loops) == 1, f'Batch.submit: loop over {coll} not found')
+        calls = [c for c in ast.walk(loops[0]) if isinstance(c, ast.Call) and isinstance(c.func, ast.Attribute) and c.func.attr == '_submit']
+        ok = len(calls) == 1 and pf.nsrc(calls[0].func.value) == pf.nsrc(loops[0].target) and [pf.nsrc(a) for a in calls[0].args] == [want]
+        ctx.check(ok, 'R8', f'{CL}::Batch.submit::{coll} numbered from {what}', f'{coll} are submitted with {[pf.nsrc(a) for c in calls for a in c.args]}, expected `{want}` (the {what} returned by _submit): '
+                  'the absolute ids computed by the client are not the ids the server assigned', cm.path, loops[0].lineno)
+
 def run(ctx: Ctx) -> None:
     ctx.explanation = 'Dominance / ordering obligations for idempotent submission in the front end and the commit procedure; linear normal forms of the id arithmetic on both sides of the wire.'
     ctx.rule('R1', 'batch / update creation: token look-up FOR UPDATE in the transaction, stored ids returned before any insert', 6)
@@ -276,10 +589,16 @@ def run(ctx: Ctx) -> None:
     ctx.rule('R4', 'repeated commit writes nothing: flag read FOR UPDATE inside the transaction, committed branch read-only, all writes under NOT committed', 4)
     ctx.rule('R5', 'job-group bunches only in order', 3)
     ctx.rule('R6', 'absolute id = start + relative - 1 at all client and server sites', 7)
+    ctx.rule('R8', 'token and id wiring: handlers pass the validated spec token, look-ups bind it unchanged, replay answer = first answer, ids unpacked / published / read under the same names', 27)
+    ctx.rule('R7', 'client tokens name one logical request: update token fresh per update (or cleared on every completing path), not re-drawn by retries; batch token fixed, creation requests once per object', 9)
     m = pf.load(FE)
-    r1(ctx, m)
-    r2(ctx, m)
-    r3(ctx, m)
-    r4(ctx)
-    r5(ctx, m)
-    r6(ctx, m)
+    # the rules are independent: a shape one of them cannot analyse must not hide the verdicts of the others
+    declined: List[str] = []
+    for rule in (lambda: r1(ctx, m), lambda: r2(ctx, m), lambda: r3(ctx, m), lambda: r4(ctx), lambda: r5(ctx, m), lambda: r6(ctx, m), lambda: r8(ctx, m), lambda: r7(ctx)):
+        try:
+            rule()
+        except AnchorRemoved:
+            raise
+        except AnalysisError as e:
+            declined.append(str(e))
+    ctx.need(not declined, ' | '.join(declined))
